@@ -306,6 +306,12 @@ func (r *Run) Settle() {
 			r.Troublef("scheduling step limit exceeded (busy loop?)")
 		}
 	}
+	// quiescent: whatever poke is still buffered was sent before this point and has been served; a stale token
+	// would wake the next sleep at once and shift the step numbering by one, depending on real timing
+	select {
+	case <-r.Sched.Poke():
+	default:
+	}
 	r.collect()
 	if r.afterSettle != nil {
 		r.afterSettle()
